@@ -87,6 +87,7 @@ MIXINS_PY = "".join(f"class Mixin{c}:\n    def mixin_{c.lower()}(self):\n       
 class FragGen:
     def __init__(self, seed: int):
         self.r = random.Random(seed)
+        self.seed = seed
         self.frags: dict[str, tuple[str, str, str]] = {}  # name -> (type, directive text, body)
         self.n_mixin_dirs = 0
 
@@ -103,7 +104,9 @@ class FragGen:
         return [f + (self.mixin(0.04)) for f in fs]
 
     def frag_name(self, t):
-        return f"{t}F{len(self.frags)}"
+        # random leading letter: alphabetical order (the order the generator visits fragments in) must be
+        # unrelated to the dependency order, otherwise the set-iteration order never matters
+        return f"{self.r.choice('ABMXZ')}{t}F{len(self.frags)}"
 
     def new_fragment(self, t, body_parts, directive="") -> str:
         name = self.frag_name(t)
@@ -143,7 +146,7 @@ class FragGen:
 
     def build(self):
         r = self.r
-        shape = r.choice(SHAPES)
+        shape = SHAPES[(self.seed // 1000) % len(SHAPES)]   # balanced over consecutive scenario seeds
         ops = []
         T = r.choice(["Animal", "Dog", "Person", "Cat"])
         root_of = {t: [f for f, ft in ROOTS if ft == t] for t in ["Animal", "Dog", "Cat", "Pet", "Person"]}
